@@ -72,12 +72,22 @@ pub fn frontier_add(b: i128, p: u8, q: u8, out: &mut Vec<i128>) {
     }
 }
 
-/// Overflow frontier for exact products: a = floor(T / b) + {-1,0,1,2}.
+/// Overflow frontier for exact products: a = floor(T / b) + {-1,0,1,2} for T
+/// next to +-2^127 and next to the wrap-around points 2^128, 2^129, 3*2^127
+/// (where truncating or wrapping arithmetic would return a small, plausible
+/// looking value).
 pub fn frontier_mul_overflow(b: i128, out: &mut Vec<i128>) {
     if b == 0 {
         return;
     }
     let bm = U512::from_u128(b.unsigned_abs());
+    for wrap in [U512::pow2(128), U512::pow2(129), U512::pow2(127).mul_u64(3), U512::pow2(128).add(&U512::pow2(126))] {
+        for d in [-1i128, 0, 1] {
+            let t = I512::new(false, wrap).add(&I512::from_i128(d));
+            push_solutions(out, &t, &bm, &[0, 1]);
+            push_solutions(out, &t.neg(), &bm, &[0, 1]);
+        }
+    }
     let lim = I512::from_u128(1u128 << 127);
     for d in [-2i128, -1, 0, 1] {
         for t in [lim.add(&I512::from_i128(d)), lim.neg().sub(&I512::from_i128(d))] {
@@ -145,6 +155,22 @@ pub fn frontier_mul_round(b: i128, s: u32, qs: &[i128], out: &mut Vec<i128>) {
             }
         }
     }
+    // quotients at the wrap-around points: a*b / 10^s next to 2^128 and 2^129
+    for wrap in [U512::pow2(128), U512::pow2(129), U512::pow2(127).mul_u64(3)] {
+        for d in [-1i128, 0, 1] {
+            let q = I512::new(false, wrap).add(&I512::from_i128(d));
+            let base = q.mul(&I512::from_i128(ps));
+            for &rho in &[0i128, 1, half, ps - 1] {
+                let f = floor_div(&base.add(&I512::from_i128(rho)), &bm);
+                for dl in [0i128, 1] {
+                    if let Some(x) = clip(&f.add(&I512::from_i128(dl))) {
+                        out.push(x);
+                        out.push(-x);
+                    }
+                }
+            }
+        }
+    }
     // exact residues for b coprime to 10 (s <= 18 so 10^s fits)
     if s <= 18 && b % 2 != 0 && b % 5 != 0 {
         let m = ps as u128;
@@ -194,6 +220,16 @@ pub fn frontier_div_round(b: i128, up: u32, down: u32, qs: &[i128], out: &mut Ve
     }
     let den = I512::from_u128(b.unsigned_abs()).mul_pow10(down); // positive
     let pu = U512::pow10(up);
+    // quotients at the wrap-around points 2^128, 2^129 (only reachable when the dividend is scaled up)
+    if up > 0 {
+        for wrap in [U512::pow2(128), U512::pow2(129), U512::pow2(127).mul_u64(3)] {
+            for d in [-1i128, 0, 1] {
+                let q = I512::new(false, wrap).add(&I512::from_i128(d));
+                let qd = q.mul(&den);
+                push_both(out, &qd, &pu);
+            }
+        }
+    }
     for &qv in qs {
         let qd = I512::from_i128(qv).mul(&den);
         // integer boundary: a*10^up = Q*den
